@@ -38,15 +38,17 @@ int main(int argc, char** argv) {
   const Case& c = cases[0];
   Sys sys = flatten(c);
   // which shells / ecps move: "mshell i j ..." / "mecp i j ...", displacement table "disp v dx dy dz"
-  std::vector<int> mshell, mecp; std::map<int, std::array<double,3>> disp;
+  std::vector<int> mshell, mecp, mecp_plus; std::map<int, std::array<double,3>> disp;
   for (auto& kv : c.extra) {
     if (kv.first == "mshell") for (auto& t : kv.second) mshell.push_back(std::atoi(t.c_str()));
     if (kv.first == "mecp") for (auto& t : kv.second) mecp.push_back(std::atoi(t.c_str()));
+    if (kv.first == "mecp_plus") for (auto& t : kv.second) mecp_plus.push_back(std::atoi(t.c_str()));   // ECPs that move WITH the shells of their atom
     if (kv.first == "disp") disp[std::atoi(kv.second[0].c_str())] = {tod(kv.second[1]), tod(kv.second[2]), tod(kv.second[3])};
   }
   disp[0] = {0, 0, 0};
   auto scoords = [&](int v) { std::vector<double> r = sys.sc; for (int i : mshell) for (int q = 0; q < 3; q++) r[3*i+q] = sys.sc[3*i+q] + disp[v][q]; return r; };
-  auto ecoords = [&](int v) { std::vector<double> r = sys.ec; for (int i : mecp) for (int q = 0; q < 3; q++) r[3*i+q] = sys.ec[3*i+q] - disp[v][q]; return r; };
+  auto ecoords = [&](int v) { std::vector<double> r = sys.ec; for (int i : mecp) for (int q = 0; q < 3; q++) r[3*i+q] = sys.ec[3*i+q] - disp[v][q];
+                            for (int i : mecp_plus) for (int q = 0; q < 3; q++) r[3*i+q] = sys.ec[3*i+q] + disp[v][q]; return r; };
   std::map<std::pair<int,int>, Fresh> cache;
   auto fresh = [&](int sv, int ev) -> Fresh& {
     auto key = std::make_pair(sv, ev);
